@@ -2,6 +2,8 @@ CONSTANTS
   MaxN = 4
   MaxDeps = 1
   Classes = {"ok", "Transport", "ErrorsNoData"}
+  MaxFaults = 2
+  Ents = {1}
 SPECIFICATION MCSpec
 INVARIANTS TypeOK InstWellFormed NoFabrication Independent SkipJustified ErrorReportedPerFetch ErrorReported DepsSettled
 PROPERTIES Terminates
